@@ -1738,6 +1738,29 @@ fn h_yield(site: a10::verif::Site, addr: usize) {
         return;
     }
     stats::inc(C::total_yields);
+    if matches!(site, Site::LockBlocked) && !crate::sched::owns_scheduling() {
+        // Single-threaded run and a lock cannot be taken: nobody will ever
+        // release it. Report and abandon the run.
+        alloc::harness(|| {
+            let mut any = false;
+            for v in alloc::take_violations() {
+                violation(v.class, v.detail);
+                any = true;
+            }
+            let freed = alloc::find(addr).is_some_and(|(_, b)| b.state != alloc::BlockState::Live);
+            if !any {
+                violation(
+                    if freed { "mem.use-after-free" } else { "wake.deadlock" },
+                    if freed {
+                        "a10 takes a lock that lies in memory it has already freed".to_string()
+                    } else {
+                        "a10 blocks forever on one of its own locks (single thread)".to_string()
+                    },
+                );
+            }
+        });
+        std::panic::panic_any(crate::run::AbortRun);
+    }
     alloc::harness(|| {
         match site {
             Site::SqTailStored => with(|k| k.on_sq_published(addr)),
@@ -1758,7 +1781,7 @@ fn h_yield(site: a10::verif::Site, addr: usize) {
 }
 
 fn h_owns() -> bool {
-    crate::sched::owns_scheduling()
+    crate::sched::intercepts_locks()
 }
 
 static HOOKS: a10::verif::Hooks = a10::verif::Hooks {
